@@ -261,6 +261,7 @@ func (r *runner) lateParts(si int, action, name string, h, rd int64) bool {
 		}
 		return true
 	}
+	kept := false
 	for _, ty := range []string{"pv", "pc"} {
 		stage := map[string]string{"pv": "after +2/3 prevotes for the genuine BlockID", "pc": "after +2/3 precommits for the genuine BlockID"}[ty]
 		for _, i := range e.others() {
@@ -281,10 +282,10 @@ func (r *runner) lateParts(si int, action, name string, h, rd int64) bool {
 			}
 		}
 		if !check(stage) {
-			return false
+			kept = true // go on: what the node does with that body when the precommits arrive is the observable part
 		}
 	}
-	return true
+	return !kept
 }
 
 // ---------------------------------------------------------------------------------------------
@@ -398,7 +399,7 @@ WINDOW:
 		}
 	}
 	e.peer.Stop() // the routines notice at their next turn and return
-	grace := time.After(12 * time.Second)
+	grace := time.After(90 * time.Second)
 GRACE:
 	for !(got["gossipDataRoutine"] && got["gossipVotesRoutine"]) {
 		select {
@@ -406,7 +407,7 @@ GRACE:
 			got[x.which] = true
 			report(x)
 		case <-grace:
-			r.fail(si, action, "property", true, "wedge:gossip:"+name, "a gossip routine did not return within 12 s after the peer was stopped (it is stuck reading the poisoned PeerState)\npeer state: "+safePS(e.ps), nil, nil)
+			r.fail(si, action, "property", true, "wedge:gossip:"+name, "a gossip routine did not return within 90 s after the peer was stopped (it is stuck reading the poisoned PeerState)\npeer state: "+safePS(e.ps), nil, nil)
 			okAll = false
 			break GRACE
 		}
